@@ -21,6 +21,7 @@ package main
 
 import (
 	"encoding/hex"
+	"runtime/debug"
 	"strconv"
 	"sync/atomic"
 	"time"
@@ -126,9 +127,9 @@ var rsSplits = []string{"lines", "words", "bytes"}
 
 func gen(tier string, emit func(engine.Case) bool) {
 	thorough := tier == "thorough"
-	lexLen, rsFullLen, rsSubLen, jsonLen := 4, 3, 4, 4
+	lexLen, rsFullLen, rsSubLen, jsonLen := 4, 2, 4, 4
 	if thorough {
-		lexLen, rsFullLen, rsSubLen, jsonLen = 5, 4, 6, 5
+		lexLen, rsFullLen, rsSubLen, jsonLen = 5, 3, 6, 5
 	}
 
 	emitSrc := func(b []byte) bool {
@@ -209,15 +210,16 @@ func judge(c engine.Case) engine.Outcome {
 	case "src":
 		// priority order: lexer (normal modes), lexer (template mode), parsers
 		var sig string
+		cache := &ixCache{src: d.Src}
 		for _, m := range []string{"normal", "template"} {
 			d.Mode = m
-			o := judgeLex(d)
+			o := judgeLexWith(d, cache)
 			if o.V != engine.OK {
 				return o
 			}
 			sig += o.Sig
 		}
-		o := judgeParse(d)
+		o := judgeParseWith(d, cache)
 		if o.V == engine.Viol {
 			return o
 		}
@@ -257,6 +259,8 @@ func shrink(c engine.Case) []engine.Case {
 }
 
 func main() {
+	// the cases allocate many short-lived small objects; collect less often
+	debug.SetGCPercent(400)
 	engine.Main(&engine.Check{
 		ID:        "C14",
 		Title:     "Tokens tile the source and every reported position is faithful",
@@ -264,7 +268,7 @@ func main() {
 		Rule: "lex/parse: all byte strings of length <= 4 (quick) / <= 5 (thorough) over a 33-byte lexer alphabet (a 1 . \" $ % { } ~ < - = # / * [ ( , : SP TAB LF CR, bytes of U+00E9, bytes of combining U+0301, 0x80, 0xff, the three BOM bytes, backslash) " +
 			"and every single-byte delete/insert/replace of a corpus of small configurations (heredocs incl. flush, nested templates, directives, three comment kinds, CRLF, multi-byte and combining characters, one-line blocks), each through LexConfig, LexExpression, LexTemplate from positions {1,1,0} and {3,5,17}, " +
 			"and through ParseConfig/ParseExpression/ParseTemplate with the range-fidelity oracle on every error-free parse; " +
-			"rs: RangeScanner / NewRangeScannerFragment x {ScanLines, ScanWords, ScanBytes} x starts {whole, {3,5,0}, {3,5,17}} over all strings <= 3/4 of the lexer alphabet and <= 4/6 of an 11-byte white-space/cluster alphabet; " +
+			"rs: RangeScanner / NewRangeScannerFragment x {ScanLines, ScanWords, ScanBytes} x starts {whole, {3,5,0}, {3,5,17}} over all strings <= 2/3 of the lexer alphabet and <= 4/6 of an 11-byte white-space/cluster alphabet; " +
 			"cfg: product (expression forms x expression wrappers x syntactic contexts x 2 start positions) and (block header forms x body forms x line endings) with spans known by construction; " +
 			"json: grammar-generated documents x white-space styles, all strings <= 4/5 over an 18-byte JSON alphabet, single-byte edits of the documents. " +
 			"Non-trivial = at least one token / node was checked; distinct = distinct (token-type sequence, end position) resp. (node kinds, values) observations.",
